@@ -92,6 +92,8 @@ fn field_pool(rng: &mut Rng, idx: usize) -> i128 {
     f64_int(v)
 }
 
+const UNAMES: [&str; 10] = ["year", "month", "week", "day", "hour", "minute", "second", "millisecond", "microsecond", "nanosecond"];
+
 fn dur_fields(rng: &mut Rng, valid_bias: bool, time_only: bool) -> Vec<i128> {
     let mut f = vec![0i128; 10];
     let sign = if rng.chance(1, 2) { 1 } else { -1 };
@@ -176,6 +178,48 @@ pub fn generate_c09(rng: &mut Rng, thorough: bool) -> Vec<String> {
     let mut f = vec![0i128; 10];
     f[6] = P53 - 1; f[7] = 999; f[8] = 999; f[9] = 2000;
     v.push(format!("du_new {}", join(&f)));
+    // Duration::round: the "nothing to do" shortcut and the default largest unit. Every threshold of the shortcut
+    // (|hours| < 24, |minutes|, |seconds| < 60, sub-second fields < 1000, days present) from both sides, alone and next
+    // to other fields, with the option sets under which rounding is a no-op; and every unit as the duration's largest
+    // non-zero field with an omitted / auto largest unit.
+    let thresholds: [(usize, i128); 6] = [(4, 24), (5, 60), (6, 60), (7, 1000), (8, 1000), (9, 1000)];
+    let reps = if thorough { 12 } else { 3 };
+    for _ in 0..reps {
+        for (idx, th) in thresholds {
+            for sign in [1i128, -1] {
+                for d in [-1i128, 0, 1] {
+                    for with_days in [0i128, 1] {
+                        let mut f = vec![0i128; 10];
+                        f[idx] = sign * (th + d);
+                        f[3] = sign * with_days;
+                        if rng.chance(1, 2) {
+                            let j = rng.range(4, 9) as usize;
+                            if j != idx { f[j] = sign * rng.range(0, 23); }
+                        }
+                        for lu in ["-", "auto", "day", UNAMES[idx]] {
+                            let (su, inc) = *rng.pick(&[("-", "-"), ("nanosecond", "-"), ("nanosecond", "1"), ("-", "1")]);
+                            v.push(format!("du_round {} {} {} {} {}", join(&f), lu, su, inc, rng.pick(&MOPT)));
+                        }
+                    }
+                }
+            }
+        }
+        for idx in 3..10usize {
+            for sign in [1i128, -1] {
+                let mut f = vec![0i128; 10];
+                f[idx] = sign * *rng.pick(&[1i128, 59, 999, 1500, 2000, 86_400, 90_061]);
+                for lu in ["-", "auto"] {
+                    let su = *rng.pick(&["-", "nanosecond", UNAMES[(idx + 1).min(9)], UNAMES[idx]]);
+                    v.push(format!("du_round {} {} {} - {}", join(&f), lu, su, rng.pick(&MOPT)));
+                }
+                // two sub-second durations added: the result is balanced up to the larger of the two largest units
+                let mut g = vec![0i128; 10];
+                let j = rng.range(idx as i128, 9) as usize;
+                g[j] = sign * *rng.pick(&[1i128, 999, 1500]);
+                v.push(format!("du_add {} {}", join(&f), join(&g)));
+            }
+        }
+    }
     let n = if thorough { 300_000 } else { 30_000 };
     for k in 0..n {
         let a = if k % 2 == 0 { small_time_dur(rng) } else { dur_fields(rng, true, k % 5 != 0) };
